@@ -31,7 +31,7 @@ QFIXED = [(1, 2), (1, 3), (1, 4), (1, 6), (2, 2), (2, 3), (2, 4), (2, 6), (3, 3)
 
 
 def budget(tier):
-    return 2000 if tier == "quick" else 50000
+    return 2000 if tier == "quick" else 150000
 
 
 # ----------------------------------------------------------------- encoders
